@@ -96,68 +96,68 @@ Proof.
 Qed.
 Print Assumptions C11_rr_rotation.
 
-(* 6. The token-aware generator for ANY replica list and any lists (closed form faithful to the code):
-      [ta_seq] = up local replicas in replica order
-                 ++ (with NonLocalReplicasFallback) up replicas of the farther tiers, tier by tier, BUT only up
-                    to the first tier that holds no replica ([p2_seq]: the early exit of the second loop)
-                 ++ the fallback policy's sequence minus the hosts already offered ([dedup_seq]);
+(* 6. The token-aware generator for ANY replica list and any lists (closed form of the model):
+      [ta_seq] = first occurrences ([dedup_seq]) of
+                 up local replicas in replica order
+                 ++ (with NonLocalReplicasFallback) up replicas of every farther tier, tier by tier
+                 ++ the fallback policy's sequence;
       then nil for ever. *)
 Theorem C11_ta_sequence : forall nlrf up p rs, ctr_in_range p ->
-  exists rem used,
-    let final := (ta_done rem used (pctr p + 1), mkPolicy (pk p) (plists p) (pctr p + 1)) in
-    yields (ta_step nlrf up) (ta_pick (pk p) nlrf (map Some rs), p) (ta_seq nlrf up p rs) final
+  exists used,
+    let final := (ta_done used (pctr p + 1), mkPolicy (pk p) (plists p) (pctr p + 1)) in
+    yields (ta_step nlrf up) (ta_pick (pk p) nlrf rs, p) (ta_seq nlrf up p rs) final
     /\ forall up', ta_step nlrf up' final = (Nil, final).
 Proof. exact ta_sequence_lemma. Qed.
 Print Assumptions C11_ta_sequence.
 
-(* 7. A Pick of a token-aware policy (replica order rs: primary first, or any order ShuffleReplicas
-      produced) in any reachable state offers exactly the specification's list - provided no tier
-      without a replica lies before a tier with one ([no_gap]; violated by the real code otherwise:
-      Refuted.ta_tier_gap_refuted) - hence: finite, only up hosts, every up host of the lists, every up
-      local replica, with fallback every up replica; and no host twice if the replica list names none twice
-      (needed: Refuted.ta_duplicate_replica_refuted). *)
+(* 7. A Pick of a token-aware policy (replica order rs: primary first, or any order ShuffleReplicas produced -
+      ANY list, repetitions and tier gaps included) in any reachable state offers exactly the specification's
+      list; hence: finite, only up hosts, no host twice, every up host of the lists, every up local replica,
+      with fallback every up replica.  (Unconditional since the repairs of the second loop and of the replica
+      loops; Refuted.v keeps the pre-fix generator and its two witnesses as regression facts.) *)
 Theorem C11_ta_offers : forall c ls s outs up rs,
-  run c (sys_init c) ls = Some (s, outs) -> id_functional (hosts_of ls) -> ctr_in_range (s_pol s) ->
-  (c_nlrf c = true -> no_gap (far_tiers (c_kind c) rs)) ->
+  run c (sys_init c) ls = Some (s, outs) -> ctr_in_range (s_pol s) ->
   let p := s_pol s in
   let k := c_kind c in
   let offered := spec_ta up (host_tier k) (max_tier k) (c_nlrf c) rs (plists p) (Z.to_nat (pctr p + 2)) in
-  (exists st', yields (ta_step (c_nlrf c) up) (ta_pick k (c_nlrf c) (map Some rs), p) offered st'
+  (exists st', yields (ta_step (c_nlrf c) up) (ta_pick k (c_nlrf c) rs, p) offered st'
                /\ forall up', ta_step (c_nlrf c) up' st' = (Nil, st'))
   /\ only_up up offered
-  /\ (NoDup (map hid rs) -> no_host_twice offered)
+  /\ no_host_twice offered
   /\ complete up (concat (plists p)) offered
   /\ complete up (in_tier (host_tier k) 0 rs) offered
   /\ (c_nlrf c = true -> complete up rs offered).
 Proof. exact ta_reachable_offers. Qed.
 Print Assumptions C11_ta_offers.
 
-(* 8. Order of that list: the up replicas of the nearest tier first (in replica order), then - with
-      fallback - the up replicas of farther tiers, nearer tier first, then the remaining hosts, nearer tier
-      first, none of them offered before. *)
+(* 8. Order of that list: replicas of the nearest tier first, then - with fallback - replicas of farther tiers,
+      nearer tier first, then the remaining hosts, nearer tier first, none of them offered before; and when the
+      replica list names no host twice, the two replica parts are exactly the up replicas in replica order
+      (primary first unless shuffled). *)
 Theorem C11_ta_replicas_first : forall c ls s outs up rs start,
   run c (sys_init c) ls = Some (s, outs) ->
   let k := c_kind c in
   let near := ups up (in_tier (host_tier k) 0 rs) in
   let far := if c_nlrf c then concat (map (fun t => ups up (in_tier (host_tier k) t rs)) (seq 1 (max_tier k))) else [] in
-  exists rest,
-    spec_ta up (host_tier k) (max_tier k) (c_nlrf c) rs (plists (s_pol s)) start = near ++ far ++ rest
-    /\ (forall h, In h near -> In h rs /\ host_tier k h = 0%nat)
-    /\ (forall h, In h far -> In h rs /\ (1 <= host_tier k h)%nat)
-    /\ tier_sorted (host_tier k) far
+  exists nearP farP rest,
+    spec_ta up (host_tier k) (max_tier k) (c_nlrf c) rs (plists (s_pol s)) start = nearP ++ farP ++ rest
+    /\ (forall h, In h nearP -> In h rs /\ host_tier k h = 0%nat)
+    /\ (forall h, In h farP -> In h rs /\ (1 <= host_tier k h)%nat)
+    /\ tier_sorted (host_tier k) farP
     /\ tier_sorted (host_tier k) rest
-    /\ (forall h, In h rest -> ~ In (hid h) (map hid (near ++ far))).
+    /\ (forall h, In h rest -> ~ In (hid h) (map hid (nearP ++ farP)))
+    /\ (NoDup (map hid rs) -> nearP = near /\ farP = far).
 Proof.
   intros c ls s outs up rs start H. destruct (reachable_pol_inv c ls s outs H) as [Hinv Hk]. cbn zeta.
   apply spec_ta_order. rewrite <- Hk. eapply pol_inv_consistent. exact Hinv.
 Qed.
 Print Assumptions C11_ta_replicas_first.
 
-(* 9. ShuffleReplicas: whatever rearrangement of the replica list is used, the offered list differs only
-      by a rearrangement inside the local-replica prefix and inside the far-replica part; what follows is
-      identical. *)
+(* 9. ShuffleReplicas: whatever rearrangement of a (duplicate-free) replica list is used, the offered list
+      differs only by a rearrangement inside the local-replica prefix and inside the far-replica part; what
+      follows is identical. *)
 Theorem C11_shuffle_only_permutes_replicas : forall up tier maxt nlrf rs rs' tiers start,
-  Permutation rs' rs ->
+  NoDup (map hid rs) -> NoDup (map hid (concat tiers)) -> Permutation rs' rs ->
   exists near near' far far' rest,
     spec_ta up tier maxt nlrf rs tiers start = near ++ far ++ rest /\
     spec_ta up tier maxt nlrf rs' tiers start = near' ++ far' ++ rest /\
@@ -173,12 +173,11 @@ Proof. exact step_offer_up. Qed.
 Print Assumptions C11_offered_host_is_up.
 
 (* 11. No generator call ever panics (and the model never runs out of fuel), over all interleavings of
-       operations, state changes, Picks and calls of all live generators - provided the counter is not
-       forced within 2^62 of its wrap-around ([label_ok]: LSetCtr is a test-only label) and a ring without
-       tokens is only met over the plain round-robin fallback (the real code panics otherwise:
-       Refuted.ta_empty_ring_panic_refuted). *)
+       operations, state changes, Picks (any query, any ring - also one without tokens) and calls of all live
+       generators - provided the counter is not forced within 2^62 of its wrap-around ([label_ok]: LSetCtr
+       is a test-only label; Refuted.rr_counter_wrap_panic_refuted shows the panic beyond). *)
 Theorem C11_no_panic_any_interleaving : forall c ls s outs,
-  Forall (label_ok c) ls -> 2 * Z.of_nat (length ls) + 4 <= 2 ^ 62 ->
+  Forall label_ok ls -> 2 * Z.of_nat (length ls) + 4 <= 2 ^ 62 ->
   run c (sys_init c) ls = Some (s, outs) ->
   forall n o, In (n, o) outs -> o <> Panic /\ o <> OutOfFuel.
 Proof.
@@ -208,7 +207,7 @@ Print Assumptions C11_generator_frame.
 
 (* ---- non-vacuity: the hypotheses are satisfiable by a concrete non-trivial history --------------------- *)
 (* rack-aware + token-aware + fallback; five hosts over three tiers, one of them down; replicas in tiers
-   0, 1 and 2 (no gap); the history contains operations, a removal, state changes, Picks and calls *)
+   0, 1 and 2; the history contains operations, a removal, state changes, Picks and calls *)
 Definition ex_cfg : cfg := mkCfg (PRack 1 1) true false true.
 Definition eA := mkHost 1 1 1 1.
 Definition eB := mkHost 2 2 1 1.
@@ -225,8 +224,8 @@ Example C11_nonvacuous :
     run ex_cfg (sys_init ex_cfg) ex_history = Some (s, outs)
     /\ outs = [(0%nat, Offer eA); (0%nat, Offer eC); (1%nat, Offer eA); (0%nat, Offer eB)]
     /\ id_functional (hosts_of ex_history) /\ ctr_in_range (s_pol s)
-    /\ no_gap (far_tiers (c_kind ex_cfg) [eC; eA; eD]) /\ NoDup (map hid [eC; eA; eD])
-    /\ Forall (label_ok ex_cfg) ex_history /\ 2 * Z.of_nat (length ex_history) + 4 <= 2 ^ 62
+    /\ NoDup (map hid [eC; eA; eD])
+    /\ Forall label_ok ex_history /\ 2 * Z.of_nat (length ex_history) + 4 <= 2 ^ 62
     /\ spec_ta (s_up s) (host_tier (c_kind ex_cfg)) 2 true [eC; eA; eD] (plists (s_pol s)) (Z.to_nat (pctr (s_pol s) + 2))
        = [eA; eC; eB; eE].
 Proof.
@@ -236,9 +235,6 @@ Proof.
     repeat (destruct Ha as [<-|Ha]; [repeat (destruct Hb as [<-|Hb]; [first [reflexivity | discriminate E]|]); destruct Hb|]).
     destruct Ha. }
   split; [split; vm_compute; [discriminate | reflexivity]|].
-  split.
-  { intros i j Hij Hi. destruct i as [|[|i]]; vm_compute in Hi; try discriminate Hi.
-    destruct j as [|[|j]]; try lia. destruct j; reflexivity. }
   split; [repeat constructor; simpl; intuition discriminate|].
   split; [repeat constructor|]. split; [vm_compute; discriminate|]. vm_compute. reflexivity.
 Qed.
